@@ -3,8 +3,8 @@
    [enum D sh] is the depth-first enumeration (declaration order, lexicographic in the index tuples)
    with cut-off at depth D of the type's shape; [expect] renders a node by transcoding its padded
    index key into the target (C04 says what that transcoding is). *)
-From Coq Require Import List NArith ZArith Lia.
-From MC Require Import Str Packed Tree Tree_proofs NoPanic Transcode_proofs Odometer Iter_proofs Meta_proofs Enum_proofs.
+From Coq Require Import List NArith ZArith Lia Sorted.
+From MC Require Import Str Packed Tree Tree_proofs NoPanic Transcode_proofs Odometer Iter_proofs Meta_proofs Enum_proofs Packed_tree Order_proofs.
 Import ListNotations.
 
 (* for every well-formed schema, every depth limit D and every target that does not run out of
@@ -51,6 +51,12 @@ Theorem C03_enumerated_resolve : forall D sh q, In q (enum D sh) ->
   exists c, descend sh q = Some c /\ (is_leaf c = true \/ length q = D).
 Proof. exact enumerated_resolve. Qed.
 
+(* "in key order": the enumeration is strictly increasing in the lexicographic order of the index
+   tuples ([plt p q]: at the first position where they differ p has the smaller index; in particular
+   neither is a prefix of the other) *)
+Theorem C03_enum_sorted : forall D sh, StronglySorted plt (enum D sh).
+Proof. exact enum_sorted. Qed.
+
 (* non-vacuity: the struct of tests/iter.rs: b: [Leaf; 2], c: {inner}, d: [{inner}; 1], a *)
 Definition inner := NHet HStruct (Named [[105%N]]) [(no_attrs, NLeaf KLeaf)].
 Definition ex_t : node := NHet HStruct (Named [[98%N]; [99%N]; [100%N]; [97%N]])
@@ -72,3 +78,4 @@ Print Assumptions C03_enum_exact.
 Print Assumptions C03_enum_nodup.
 Print Assumptions C03_resolved_leaf_yielded.
 Print Assumptions C03_enumerated_resolve.
+Print Assumptions C03_enum_sorted.
